@@ -6,7 +6,7 @@
 
     Part 1: definitions (this is trusted: it says what the Python constructs mean).
     Part 2: generic lemmas used by the source-equality proofs (Ext/SrcEq.v, Filter/SrcEq.v). *)
-From Coq Require Import List Bool Arith Lia.
+From Coq Require Import List Bool Arith ZArith Lia.
 From DV Require Import Common.Res.
 Import ListNotations.
 Local Open Scope nat_scope.
@@ -80,6 +80,20 @@ Fixpoint py_join {A} (sep : list A) (l : list (list A)) : list A :=
   match l with
   | [] => []
   | x :: r => match r with [] => x | _ => x ++ sep ++ py_join sep r end
+  end.
+
+(** an index given as a Python int of either sign / as a value that may be None (TypeError) *)
+Definition bnd_of_Z (z : Z) : bnd := if (0 <=? z)%Z then BPos (Z.to_nat z) else BNeg (Z.to_nat (- z)).
+Definition py_bound_o (o : option nat) : res bnd := match o with Some n => Ok (BPos n) | None => Err EType end.
+
+(** [enumerate(l)] *)
+Definition py_enumerate {A} (l : list A) : list (nat * A) := combine (seq 0 (length l)) l.
+
+(** [d[k]] on a dict (association list with unique keys): KeyError *)
+Fixpoint py_dict_get {K A} (eqb : K -> K -> bool) (d : list (K * A)) (k : K) : res A :=
+  match d with
+  | [] => Err EKey
+  | (k', a) :: r => if eqb k k' then Ok a else py_dict_get eqb r k
   end.
 
 (** * Part 2: lemmas *)
